@@ -366,6 +366,18 @@ def r_clash(c):
         m.loc("pytato.codegen", cv),
         "outputs are validated with separate checkers: a clash between two outputs' "
         "inputs goes unnoticed")
+    # every code-generation entry point reaches the validity check before
+    # generating anything
+    from pta.rules.c03 import reach
+    for qn, mint in ((LC + ".generate_loopy", "cg_mapper"),
+                     (NL + ".generate_numpy_like", "cgen_mapper")):
+        g = m.func(qn)
+        cg = reach(m, [(qn, g)], depth=3)
+        reaches = "pytato.codegen.check_validity_of_outputs" in cg
+        c.check(reaches, "R15-CLASH", qn.replace("pytato.", "", 1),
+                "reaches-check_validity_of_outputs", m.loc(m.module_of(g), g),
+                "this code-generation entry point never runs the input-name validity "
+                "check: two distinct inputs with the same name are silently merged")
     # the front end rejects reserved identifiers
     ci = m.func("pytato.array._check_identifier")
     c.check(any(isinstance(s, ast.Raise) for s in ast.walk(ci)) and "_pt_" in ast.unparse(
